@@ -175,6 +175,13 @@ def replay_binding(wj):
 NCHUNKS = 16
 
 
+def b_random_func(seed_base, programs):
+    def run(seed):
+        from replay.native import run_native
+        return run_native("c01_random_bounded", {"seed": seed_base + seed, "programs": programs, "what": "func", "max_failures": 5}, timeout=1500)
+    return run
+
+
 def harnesses():
     hs = []
     for c in range(NCHUNKS):
@@ -357,4 +364,8 @@ def harnesses():  # noqa: F811
     hs.append(Harness("ast_name.lookup[function]", h_lookup(True), units=[(E_PY, "AstEval.ast_name")], replay=replay_lookup))
     hs.append(Harness("programs.native-differential", b_programs, units=[(E_PY, "AstEval.ast_functiondef"), (E_PY, "AstEval.ast_classdef"),
                                                                            (E_PY, "EvalFunc.resolve_nonlocals"), (E_PY, "AstEval.get_names_set")], kind="bounded"))
+    hs.append(Harness("random.functions-native-differential", b_random_func(9000, 400), units=[(E_PY, "EvalFunc.call"), (E_PY, "AstEval.ast_functiondef"), (E_PY, "AstEval.ast_classdef")], kind="bounded"))
+    for k in range(1, 9):
+        hs.append(Harness(f"random.functions-native-differential[thorough {k}/8]", b_random_func(9000 + 100 * k, 1500),
+                          units=[(E_PY, "EvalFunc.call"), (E_PY, "AstEval.ast_functiondef"), (E_PY, "AstEval.ast_classdef")], kind="bounded", tier="thorough"))
     return hs
